@@ -36,7 +36,7 @@ def shards(tier):
 
 def required_classes(tier):
     out = ["av:" + p for p in PERTS if p not in ("identity-key",)] + ["fav:" + p for p in ("honest", "drop-signer", "dup-signer", "subst-key", "empty", "empty-infinity", "bad-key", "sk-and-r-sk", "negated", "other-message")]
-    out += ["agg:sum", "agg:permutation", "agg:bracketing", "agg:refuse", "agg:undecodable", "suite:basic", "suite:aug", "suite:pop", "n>=2"]
+    out += ["agg:multiplicity", "agg:sum", "agg:permutation", "agg:bracketing", "agg:refuse", "agg:undecodable", "suite:basic", "suite:aug", "suite:pop", "n>=2"]
     return out
 
 
@@ -82,6 +82,11 @@ def run(rec):
                     outs.append(call(S.Aggregate, [a[1], b[1]]))
         else:
             rec.case("agg:bracketing", None, nontrivial=False)
+        # repeated and cancelling entries: the sum counts multiplicities (s + s = 2s, s + (-s) = identity)
+        for rep_list in ([sigs[0], sigs[0]], [sigs[0]] * 3, sigs + [sigs[j_] for j_ in range(n)], sigs + [sigs[-1]],
+                         [sigs[0], Z.enc_g2(E2.neg(Z.dec_g2(sigs[0])))], [inf_sig, sigs[0], inf_sig]):
+            rec.case("agg:multiplicity", ("aggm", tuple(rep_list)), sample={"fn": "Aggregate", "suite": suite, "entries": len(rep_list), "distinct": len(set(rep_list))})
+            call(S.Aggregate, list(rep_list))
         vals = {o[1] if o[0] == "ok" else repr(o[1]) for o in outs}
         rec.check("B-c03.order", len(vals) == 1, "agg", "Aggregate depends on order / grouping of its inputs", case={"fn": "Aggregate", "sigs": sigs, "suite": suite},
                   facts={"fn": "Aggregate", "kind": "order-dependence"})
@@ -112,6 +117,10 @@ def run(rec):
                 av(pert, pks[:j] + pks[j + 1:], msgs[:j] + msgs[j + 1:], agg)
             elif pert == "dup-signer":
                 av(pert, pks + [pks[j]], msgs + [msgs[j]], agg)
+                # the library's own Aggregate over the list with the duplicate (what a caller would do)
+                la = call(S.Aggregate, sigs + [sigs[j]])
+                if la[0] == "ok" and isinstance(la[1], bytes):
+                    av(pert, pks + [pks[j]], msgs + [msgs[j]], la[1])
                 # ... and the sum rule: with the duplicate's signature added it verifies again (not in basic: repeated message)
                 av(pert, pks + [pks[j]], msgs + [msgs[j]], MB.aggregate(sigs + [sigs[j]]))
             elif pert == "subst-key":
@@ -179,6 +188,9 @@ def run(rec):
         fav("drop-signer", pks[:-1], msg, fagg)
         fav("dup-signer", pks + [pks[0]], msg, fagg)
         fav("dup-signer", pks + [pks[0]], msg, MB.aggregate(fs + [fs[0]]))
+        la = call(Pp.Aggregate, fs + [fs[0]])
+        if la[0] == "ok" and isinstance(la[1], bytes):
+            fav("dup-signer", pks + [pks[0]], msg, la[1])
         P2 = list(pks); P2[j] = pk_x
         fav("subst-key", P2, msg, fagg)
         fav("empty", [], msg, fagg)
